@@ -1003,7 +1003,7 @@ fn main() {
     let args: Vec<String> = std::env::args().skip(1).collect();
     let mut ctx = Ctx::new("C09", &args);
     ctx.rule(
-        "typed: generated instances of 16 built-in scalar types, 9 built-in containers and 18 derived Form types \
+        "typed: generated instances of 16 built-in scalar types, 9 built-in containers and 27 derived Form cells \
          through the three printers. model: arbitrary model values (boundary scalars, quoted attribute names, \
          non-text slot keys, blobs, depth <= 64) -> c(v)=parse(print_i(v)) must exist and every printer must \
          give c(v) back (fixed point + parser-produced round trip). parsed: values obtained by parsing \
@@ -1021,17 +1021,17 @@ fn main() {
     );
     ctx.assume("HashMap typed values are printed in the map's iteration order (RandomState); the verdict does not depend on it");
 
-    ctx.prop("typed-roundtrip", ctx.pick(60_000, 3_000_000), arb_typed, |c| guard(check_typed, c));
+    ctx.prop("typed-roundtrip", ctx.pick(50_000, 3_000_000), arb_typed, |c| guard(check_typed, c));
     ctx.prop(
         "model-cycle",
-        ctx.pick(80_000, 3_000_000),
+        ctx.pick(60_000, 3_000_000),
         || arb_model().prop_map(|v| ModelCase { v }),
         |c| guard(check_model, c),
     );
-    ctx.prop("parsed-roundtrip", ctx.pick(80_000, 3_000_000), || arb_text_case(4), |c| guard(check_parsed, c));
+    ctx.prop("parsed-roundtrip", ctx.pick(60_000, 3_000_000), || arb_text_case(4), |c| guard(check_parsed, c));
     ctx.prop(
         "chunks",
-        ctx.pick(16_000, 600_000),
+        ctx.pick(12_000, 600_000),
         || {
             (
                 prop_oneof![5 => small_value(), 1 => arb_scalar(true)],
@@ -1045,7 +1045,7 @@ fn main() {
     );
     ctx.prop(
         "raw-no-panic",
-        ctx.pick(80_000, 4_000_000),
+        ctx.pick(60_000, 4_000_000),
         || {
             (
                 prop_oneof![
